@@ -1082,6 +1082,9 @@ package pongo2
 //@   at (*lexer).ignore#0 requires {C06} @drops-exactly-the-endverbatim-delimiter l.pos - l.start == 17
 //@   at (*lexer).ignore#1 requires {C06} @drops-exactly-the-verbatim-delimiter l.pos - l.start == 14 && prefixat(l.input, l.start, "{% verbatim %}")
 //@   at (*lexer).ignore#2 requires {C06} @drops-exactly-one-comment prefixat(l.input, l.start, "{#") && prefixat(l.input, l.pos - 2, "#}") && l.start + 4 <= l.pos
+//@   at store[lexer.inVerbatim] requires {C06} @a-verbatim-marker-only-toggles-the-mode v != l.inVerbatim
+//@   at (*lexer).ignore#2 requires {C06} @comments-are-recognised-outside-verbatim-blocks-only !l.inVerbatim
+//@   at (*lexer).next#1 requires {C06} @a-character-is-literal-text-only-where-no-construct-starts l.inVerbatim || (!prefixat(l.input, l.pos, "{#") && !prefixat(l.input, l.pos, "{{") && !prefixat(l.input, l.pos, "{%"))
 //@   at (*lexer).tokenize requires {C06} @code-starts-at-an-opening-delimiter l.start == l.pos && !l.inVerbatim && (prefixat(l.input, l.pos, "{{") || prefixat(l.input, l.pos, "{%"))
 // the state functions are entered with nothing pending (run and the previous state emitted or ignored it);
 // they are called through function values, so this protocol is ASSUMED at their entry (not checked at tokenize)
@@ -1114,6 +1117,11 @@ package pongo2
 // execution; a second execution strips again (same root cause as the C04/C05 findings)
 //@ func (*Template).newContextForExecution
 //@   at store[Token.Val]#1 requires {C15} @lstrip-leaves-the-compiled-text-alone false
+//@   at strings.TrimRight requires {C15} @lstrip-only-spaces-and-tabs-directly-before-a-block-tag tpl.Options.LStripBlocks && arg0 == prev.Val && arg1 == "\t " && prev.Typ == TokenHTML && t.Typ != TokenHTML && t.Val == "{%"
+//@   iterend 0 {C15} @lstrip-strips-the-text-before-every-block-tag (tpl.Options.LStripBlocks && old(prev.Typ) == TokenHTML && old(t.Typ) != TokenHTML && old(t.Val) == "{%") ==> prev.Val == lastresult("strings.TrimRight")
+//@   iterend 0 {C15} @trimblocks-drops-exactly-the-newline-after-a-block-tag (tpl.Options.TrimBlocks && old(prev.Typ) != TokenHTML && old(t.Typ) == TokenHTML && old(prev.Val) == "%}" && len(old(t.Val)) > 0 && strat(old(t.Val), 0) == 10) ==> t.Val == substr(old(t.Val), 1, len(old(t.Val)))
+//@   iterend 0 {C15} @text-not-after-a-block-tag-keeps-its-first-character (!tpl.Options.TrimBlocks || old(prev.Typ) == TokenHTML || old(prev.Val) != "%}" || len(old(t.Val)) == 0 || strat(old(t.Val), 0) != 10) ==> (t == prev || t.Val == old(t.Val))
+//@   ensures {C15} @body-the-token-pass-runs-whenever-an-option-asks-for-it (tpl.Options.TrimBlocks || tpl.Options.LStripBlocks) ==> entered(0)
 //@   at store[Token.Val]#2 requires {C15} @trim-leaves-the-compiled-text-alone false
 // diagnostics (C16)
 //@ writers {C16} F|lexer|line (*lexer).run
@@ -1131,6 +1139,17 @@ package pongo2
 //@ func (*Parser).Error
 //@   ensures {C16} @names-the-template-and-the-given-token r0 != nil && r0.Filename == p.name && r0.Template == p.template && r0.Sender == "parser" && (token != nil ==> (r0.Line == token.Line && r0.Column == token.Col && r0.Token == token))
 //@   ensures {C16} @defaults-to-the-current-token (token == nil && 0 <= p.idx && p.idx < len(p.tokens) && p.tokens[p.idx] != nil) ==> (r0.Line == p.tokens[p.idx].Line && r0.Column == p.tokens[p.idx].Col)
+// execution errors name the file their token was read from (with inheritance, imports and includes that is
+// not the template being executed) and the token's own line and column
+//@ func (*ExecutionContext).OrigError
+//@   ensures {C16} @execution-error-names-the-source-of-its-token r0 != nil && r0.Template == ctx.template && r0.Token == token && r0.Sender == "execution" && r0.OrigError == err && (token != nil ==> (r0.Filename == token.Filename && r0.Line == token.Line && r0.Column == token.Col)) && (token == nil ==> r0.Filename == ctx.template.name)
+//@ func (*ExecutionContext).Error
+//@   ensures {C16} @execution-error-names-the-source-of-its-token r0 != nil && r0.Template == ctx.template && r0.Token == token && (token != nil ==> (r0.Filename == token.Filename && r0.Line == token.Line && r0.Column == token.Col)) && (token == nil ==> r0.Filename == ctx.template.name)
+// an error that already carries a token keeps its position; one without takes the given token and, if it has no line yet, that token's position
+//@ func (*Error).updateFromTokenIfNeeded
+//@   ensures {C16} @same-error-object r0 == e && e.Filename == old(e.Filename) && e.Sender == old(e.Sender) && e.OrigError == old(e.OrigError)
+//@   ensures {C16} @an-error-with-a-token-keeps-its-position old(e.Token) != nil ==> (e.Token == old(e.Token) && e.Line == old(e.Line) && e.Column == old(e.Column))
+//@   ensures {C16} @an-error-without-a-token-takes-the-given-one old(e.Token) == nil ==> (e.Token == t && (old(e.Line) <= 0 ==> (e.Line == t.Line && e.Column == t.Col)) && (old(e.Line) > 0 ==> (e.Line == old(e.Line) && e.Column == old(e.Column))))
 
 // ---- name resolution through reflect (C08, C01) ----
 // more of reflect's documented panic conditions and a few facts about which values may be turned back into
